@@ -732,6 +732,18 @@ def c_link_masses(case, ctx):
                         "axis): max |diff| %.3g (joint %d: got %.9g, expected %.9g) > %.3g"
                         % (min(errs), k, got[k, 0], cands[0][0][k, 0], rt(s) * scale)
                         + (" " + REGION_TAG if s.known_region else ""))
+    # a query is a function of (state, wrench): asking the SAME question again -- with the very same wrench object,
+    # as a caller holding one load does -- must give the same torques (the weights must not pile up in the caller's
+    # wrench or in a shared default)
+    if md["theta_given"]:
+        again = as_mat(sut(arm.staticForcesWithLinkMasses, Wobj, th.copy()), (n, 1),
+                       "staticForcesWithLinkMasses(W, theta) asked twice")
+    else:
+        again = as_mat(sut(arm.staticForcesWithLinkMasses, Wobj), (n, 1), "staticForcesWithLinkMasses(W) asked twice")
+    if float(np.abs(again - got).max()) > rt(s) * scale:
+        raise Violation("staticForcesWithLinkMasses asked twice with the same wrench object gives different torques: "
+                        "max |diff| %.3g > %.3g" % (float(np.abs(again - got).max()), rt(s) * scale)
+                        + (" " + REGION_TAG if s.known_region else ""))
     # gravity off, wrench only: must reduce to plain statics
     if not np.any(masses[1:n + 1]):
         plain = as_mat(sut(arm.staticForces, Wobj, th.copy()), (n, 1), "staticForces")
